@@ -6,6 +6,7 @@ import io
 import os
 import random
 import sys
+import threading
 import wave
 
 import auditok
@@ -292,7 +293,7 @@ def run_pipeline(case, data, tmpdir, script_override=None, decisions=None, strat
     res.detections = list(tw.detections) if tw else []
     res.observers = holder.get("observers", [])
     res.thread_states = [(st.name, st.status) for st in sched.states]
-    res.os_alive = [st.name for st in sched.states if st.thread is not None and st.name != "main" and st.thread.is_alive()]
+    res.os_alive = [st.name for st in sched.states if st.thread is not None and st.name != "main" and threading.Thread.is_alive(st.thread)]
     return res
 
 
